@@ -8,7 +8,7 @@ from harness import htaio
 from harness.props import common as C
 from harness.props import cpcommon as CP
 
-N_CASES = {"quick": 110, "thorough": 1800}
+N_CASES = {"quick": 240, "thorough": 1800}
 SHRINK = True
 ASSUMPTIONS = [
     "graphs come from successful analyses of causally consistent well-formed traces (C08) and from re-weighted copies of them (1-5 edges given new non-negative weights through cp_graph.edges[u,v]['weight'], then critical_path() again)",
